@@ -324,4 +324,4 @@ func VerifHarness_C17_RangeDel3_Thorough()    { hStripes(3, 0, 1, false, true) }
 func VerifHarness_C17_RangeDelTwoStep_Deep()  { hStripes(3, 0, 1, true, true) }
 func VerifHarness_C17_PointStripes_Thorough() { hPointStripes(4, 0, 2, false) }
 func VerifHarness_C17_TwoKeys_Thorough()      { hPointStripes(3, 2, 1, false) }
-func VerifHarness_C17_TwoStepSnap_Thorough()  { hPointStripes(3, 1, 1, true) }
+func VerifHarness_C17_TwoStepSnap_Deep()      { hPointStripes(3, 1, 1, true) }
